@@ -296,7 +296,14 @@ class Convention(abc.ABC, Generic[GridKind, Index]):
         ----------
         .. [1] `CF Conventions v1.10, 4.4 Time Coordinate <https://cfconventions.org/Data/cf-conventions/cf-conventions-1.10/cf-conventions.html#time-coordinate>`_
         """
-        for name in self.dataset.variables.keys():
+        # Coordinate variables are considered before other coordinates and data variables,
+        # so that a time-like data variable such as a forecast reference time
+        # is not mistaken for the time coordinate. The sort is stable.
+        dataset = self.dataset
+        names = sorted(
+            dataset.variables.keys(),
+            key=lambda name: (name not in dataset.dims, name not in dataset.coords))
+        for name in names:
             variable = self.dataset[name]
             # xarray will automatically decode all time variables
             # and move the 'units' attribute over to encoding to store this change.
